@@ -1,4 +1,5 @@
 import UtilModel.RefCount.Props
+import UtilModel.RefCount.ObsOnce
 open UtilModel UtilModel.RefCount
 #print axioms UtilModel.accepts_sound
 #print axioms UtilModel.accepted_satisfies
@@ -15,3 +16,7 @@ open UtilModel UtilModel.RefCount
 #print axioms RefCount.rel_eventually
 #print axioms RefCount.stale_released_in_store
 #print axioms RefCount.rel_after_hidden
+#print axioms RefCount.calls_frame
+#print axioms RefCount.idx_step
+#print axioms RefCount.relIn_step
+#print axioms RefCount.rel_once_obs
